@@ -218,6 +218,52 @@ func c07Run(t *engine.T, shard string) {
 				return "rebinding", nil
 			})
 		}
+		// shadowing: a name bound in an inner scope (loop variable, parameter, partial / contentOf data, a helper's
+		// child context) to each of a few values - nil among them - while an outer scope binds the same name to
+		// something of the opposite truth value: every context reports the truth value of the inner binding
+		shVals := []interface{}{nil, false, "", 0, "x", (*Person)(nil), map[string]int(nil), template.HTML(""), true}
+		for oi, outer := range []string{`<% let s9 = "outer" %>`, `<% let s9 = false %>`, ``, `<% let s9 = nil %>`} {
+			for vi, v := range shVals {
+				for _, cx := range c07Contexts {
+					for _, bind := range []struct{ name, pre, post string }{
+						{"loop variable", `<%= for (s9) in pick(` + fmt.Sprint(vi) + `) { %>`, `<% } %>`},
+						{"loop value with key", `<%= for (k9, s9) in pick(` + fmt.Sprint(vi) + `) { %>`, `<% } %>`},
+						{"parameter", `<% let f9 = fn(s9) { %>`, `<% } %><%= f9(shv[` + fmt.Sprint(vi) + `]) %>`},
+						{"partial data", `<%= partial("sh9", {"s9": shv[` + fmt.Sprint(vi) + `]}) %>`, ``},
+						{"contentOf data", `<% contentFor("cs9") { %>`, `<% } %><%= contentOf("cs9", {"s9": shv[` + fmt.Sprint(vi) + `]}) %>`},
+						{"helper child context", `<%= withs(shv[` + fmt.Sprint(vi) + `]) { %>`, `<% } %>`},
+					} {
+						inner := cx.pre + "s9" + cx.post
+						src := outer + bind.pre + inner + bind.post
+						if bind.name == "partial data" {
+							src = outer + bind.pre
+						}
+						want := cx.no
+						if c07Truthy(v) {
+							want = cx.yes
+						}
+						t.Case(fmt.Sprintf("shadowing outer=%d value=%d %s %s %s", oi, vi, bind.name, cx.name, q(src)), true, func() (string, *engine.Fail) {
+							var log []int
+							ctx := c07Context(&log)
+							ctx.Set("shv", shVals)
+							ctx.Set("pick", func(i int) []interface{} { return []interface{}{shVals[i]} })
+							ctx.Set("withs", func(v interface{}, help plush.HelperContext) (template.HTML, error) {
+								ch := help.New()
+								ch.Set("s9", v)
+								s, err := help.BlockWith(ch)
+								return template.HTML(s), err
+							})
+							ctx.Set("partialFeeder", func(name string) (string, error) { return inner, nil })
+							out, err := Render(src, ctx)
+							if err != nil || out != want {
+								return "", engine.Failf("mismatch", "inner binding %#v (truthy=%v): expected %q, got %q / %v", v, c07Truthy(v), want, out, err)
+							}
+							return fmt.Sprintf("truthy=%v", c07Truthy(v)), nil
+						})
+					}
+				}
+			}
+		}
 		// ill-formed chains: nothing may follow the else block. Rendering them must not pick a block out of
 		// textual order (an error, or the first truthy block in textual order, are both fine).
 		for _, c1 := range []string{"true", "false"} {
